@@ -77,7 +77,7 @@ func c08Pick(label string, n int) int {
 // bloom filter, dictionary or min/max -> real tagFamilyFilters.unmarshal, exactly as
 // partIter.findBlock does), never rules out a block that holds a row satisfying the condition,
 // and never fails or panics.
-// bound: tag of type int; block of 1..2 rows (thorough 1..3) with arbitrary int64 values; condition = | != | IN | NOT IN | > | >= | < | <= with 1..2 literals drawn from {7,-1,12345678,0}; the block as first written or as a merge rewrites it (values only); the bloom filter is its contract (no false negatives, arbitrary false positives)
+// bound: tag of type int; block of 1..3 rows with arbitrary int64 values; condition = | != | IN | NOT IN | > | >= | < | <= with 1..2 literals drawn from {7,-1,12345678,0}; the block as first written or as a merge rewrites it (values only); the bloom filter is its contract (no false negatives, arbitrary false positives)
 // outside: AND/OR trees of conditions, null tag values
 func VerifH_C08_SkippingIndexNeverHidesAMatchingRow_IntTag() { c08SkippingCase(0) }
 
@@ -186,8 +186,8 @@ func c08SkippingCase(kind int) { // 0 int, 1 string, 2 string array, 3 int array
 
 	// the block: rows written through the real write path
 	maxRows := 2
-	if zzverif.Thorough() && kind <= 1 {
-		maxRows = 3
+	if kind == 0 || (zzverif.Thorough() && kind == 1) {
+		maxRows = 3 // int tags: three rows are needed to tell min/max bookkeeping slips from "no min/max"
 	}
 	rows := 1 + c08Pick("rows", maxRows)
 	b := &block{}
